@@ -9,10 +9,13 @@ MODULES_CYCLE = [
     "RotoV.Model.TcValueCycle", "RotoV.Model.TcValueCyclePinned", "RotoV.Lemmas.TcValueCycle",
     "RotoV.Lemmas.TcValueCycleTarjan", "RotoV.Lemmas.TcValueCycleProg", "RotoV.Model.Tarjan", "RotoV.Lemmas.Tarjan", "RotoV.Lemmas.TarjanCtx", "RotoV.Lemmas.TarjanNoPanic",
 ]
+# the rule "unknown or out-of-scope name" in packages of several modules: own module, tied to resolve_name by regenerated facts
+PROPS_SCOPE = "RotoV.Props.C07Scope"
+MODULES_SCOPE = ["RotoV.Model.TcModules", "RotoV.Lemmas.TcModules"]
 MODULES = [
     "RotoV.Lemmas.TcRules", "RotoV.Lemmas.UnifyTc", "RotoV.Lemmas.Typing", "RotoV.Lemmas.TypingAux", "RotoV.Lemmas.TypingMono", "RotoV.Lemmas.TypingProg",
     "RotoV.Model.Typing", "RotoV.Model.TcRules", "RotoV.Model.UnifyTc",
-    "RotoV.Model.TcInfer", "RotoV.Model.TcInferPinned", "RotoV.Lemmas.TcInferUnify", "RotoV.Lemmas.TcInferSound", "RotoV.Lemmas.TcInferSoundMain", "RotoV.Lemmas.TcInferObls", "RotoV.Lemmas.TcInferProg", "RotoV.Model.TcInferSem",
+    "RotoV.Model.TcInfer", "RotoV.Model.TcInferPinned", "RotoV.Lemmas.TcInferUnify", "RotoV.Lemmas.TcInferSound", "RotoV.Lemmas.TcInferSoundMain", "RotoV.Lemmas.TcInferMethod", "RotoV.Lemmas.TcInferObls", "RotoV.Lemmas.TcInferProg", "RotoV.Model.TcInferSem",
 ]
 
 
@@ -27,7 +30,7 @@ def search(ctx):
 def run(ctx):
     ctx.extract(["c07facts", "c07arms", "c07cycle"])
     parts = []
-    for module, extra in ((PROPS, MODULES), (PROPS_CYCLE, MODULES_CYCLE)):
+    for module, extra in ((PROPS, MODULES), (PROPS_CYCLE, MODULES_CYCLE), (PROPS_SCOPE, MODULES_SCOPE)):
         for k in ("theorems", "nonvacuity_examples", "axioms"):
             ctx.coverage.pop(k, None)
         ctx.prove(module, extra_modules=extra)
@@ -58,7 +61,13 @@ def run(ctx):
         "source by the regenerated statement skeleton (target c07cycle, pinned copy Model/TcValueCyclePinned.lean) and by the "
         "differential run of phase cyc (real tarjan components and find_compilation_order outcome = the model's on every collected "
         "graph); that the collected reference graph contains every use of a constant / function is tested (six syntactic positions), not proved",
-        "Runtime::new() (no registered types / context); single-file scripts",
+        "packages of several modules: the scoping rules are written down in Model/TcModules.lean (what a path denotes at a site; "
+        "imports; the package judge = every import and use denotes what it was written for AND the declarative checker accepts the "
+        "flattened package; item names unique in the package, so a local or an import never shadows an item); that the type checker "
+        "enforces them is TESTED (phases mods / mods-gen), only the clause `a path segment after the first is looked up among the "
+        "declarations of the scope, never its imports` is tied to the source by regenerated facts (order of consultation in "
+        "ScopeGraph::resolve_name, values of `recurse` in resolve_module_part_of_path)",
+        "Runtime::new() (no registered types / context)",
     ]
     return ctx.finish(
         level="proof",
